@@ -435,6 +435,13 @@ func NewStreamMonitor(e *Env, filter func(rule string) bool) (*StreamModel, *Mon
 		if !o.Accts[escrow].Bal.IsEqual(sum) {
 			viol("stream-escrow-vs-deposits", where, fmt.Sprintf("stream escrow holds %s, sum of remaining deposits %s (height %d)", o.Accts[escrow].Bal, sum, o.Height))
 		}
+		// coins in the escrow that no stream record accounts for can be claimed by no receiver and are
+		// returned by no cancel: stranded (the C12 side of the same comparison)
+		for _, b := range o.Accts[escrow].Bal {
+			if b.Amount.GT(sum.AmountOf(b.Denom)) {
+				viol("stranded-surplus-in-escrow", where, fmt.Sprintf("stream escrow holds %s but the stream records account for %s%s only: %s%s belong to no stream (height %d)", b, sum.AmountOf(b.Denom), b.Denom, b.Amount.Sub(sum.AmountOf(b.Denom)), b.Denom, o.Height))
+			}
+		}
 	}
 	mon.AfterBegin = func(e *Env, pre, post *lab.Obs, resp abci.ResponseBeginBlock) {
 		if !pre.Accts[escrow].Bal.IsEqual(post.Accts[escrow].Bal) {
